@@ -88,15 +88,15 @@ theorem parseLast_cases (off : Int) (p : Bytes) (plen : Nat) (ho0 : 0 ≤ off) (
         rw [size_ok (by simp only; omega) (by simp only; omega)]
         simp only
         by_cases hgt : LLONG_MAX - 1 + 1 > off
-        · simp [hgt]
+        · simp [hgt] <;> omega
         · have : off = LLONG_MAX := by omega
-          simp [hgt, this]
+          simp [hgt, this] <;> omega
       · simp only [hmax, if_false]
         rw [add64_ok (by omega) (by omega)]
         simp only
         rw [size_ok (by simp only; omega) (by simp only; omega)]
         have hgt : last + 1 > off := by omega
-        simp [hgt]
+        simp [hgt] <;> omega
 
 theorem parseLast_wf {off : Int} {p : Bytes} {plen : Nat} {s : Spec} (ho0 : 0 ≤ off) (hob : off ≤ LLONG_MAX)
     (h : parseLast off p plen = .ok s) : s.WF := by
